@@ -139,21 +139,34 @@ Qed.
 (** ** Two corner cases of the model, shown on concrete runs *)
 
 (** (1) A progressive call whose procedure disappears between two chunks: the
-    second chunk is refused with no_such_procedure, the call stays recorded,
-    and the callee's YIELD is still delivered afterwards — two final replies
-    for request 9. *)
+    second chunk is refused with no_such_procedure and (repaired code) that
+    ERROR is the final reply: the call is erased, the callee's late YIELD
+    reaches nobody. *)
 Definition prog_opts : dict := [("progress", VBool true)].
 Definition pc1 : call_result := call cfg0 (lk 0 0) 5 d2s s10 9 prog_opts "net.solo" [] [] 0.
 Definition dp1 : dealer := match pc1 with CallInvoked d _ _ => d | _ => d2s end.
 Definition dp2 : dealer := fst (fst (unregister dp1 11 5 23)).
 Definition pc2 : call_result := call cfg0 (lk 1 0) 6 dp2 s10 9 [] "net.solo" [] [] 0.
+Definition dp3 : dealer := match pc2 with CallRefused d _ => d | _ => dp2 end.
 
-Example chunk_refusal_keeps_call :
+Example chunk_refusal_ends_call :
     (exists o, pc1 = CallInvoked dp1 (set_invgen s11 1) o) /\
-    pc2 = CallRefused dp2 [(10, RError c_CALL 9 [] e_no_such_procedure [] [])] /\
     cget (d_calls dp2) (10, 9) = Some 10 /\
-    snd (sync_yield dp2 11 1 [] [vnat 42] []) = [(10, RResult 9 [] [vnat 42] [])].
+    pc2 = CallRefused dp3 [(10, RError c_CALL 9 [] e_no_such_procedure [] [])] /\
+    gone dp3 (10, 9) (11, 1) /\
+    sync_yield dp3 11 1 [] [vnat 42] [] = (dp3, []).
 Proof. split; [eexists; vm_compute; reflexivity|]. vm_compute. repeat split; reflexivity. Qed.
+
+Lemma wf_dp2 : dealer_wf (lk 1 0) dp2.
+Proof.
+  unfold dp2. apply unregister_wf.
+  pose proof (call_wf cfg0 (lk 0 0) 5 d2s s10 9 prog_opts "net.solo" [] [] 0 wf_d2s (lk_ok 0 0)) as H.
+  assert (E : exists o, pc1 = CallInvoked dp1 (set_invgen s11 1) o) by (eexists; vm_compute; reflexivity).
+  destruct E as [o E]. unfold pc1 in E. rewrite E in H. destruct H as [_ H].
+  - apply lk_nowrap; vm_compute; reflexivity.
+  - apply att; cbn; auto.
+  - apply H; [apply lk_le; vm_compute; discriminate | reflexivity].
+Qed.
 
 (** (2) A call cancelled in kill mode whose caller then sends a further chunk
     gets a new timer although it is cancelled; when that timer fires nothing
